@@ -106,7 +106,8 @@ class HeartbeatUnit(Unit):
             def inv(ex_, env):
                 return [('C18.heartbeat: while the heartbeat loop runs only RUNNING events were emitted by it', all(e.f['eventType'] == 'RUNNING' for e in sent))]
             loops = [n for n in ast.walk(extract.load(LINEAGE).find('OpenFilterLineage._heartbeat_loop')) if isinstance(n, ast.While)]
-            ex.loop_specs[ex.loop_key(loops[0])] = TrivialLoop(inv, None)
+            # ghost log client.sent: append-only; the loop invariant constrains EVERY entry (all RUNNING), which is all the exit obligation uses of earlier iterations
+            ex.loop_specs[ex.loop_key(loops[0])] = TrivialLoop(inv, None, heap_keeps=(('olclient', 'sent'),))
             try:
                 ex.call_closure(closure(LINEAGE, 'OpenFilterLineage._heartbeat_loop'), [me], {})
             except CutPath:
